@@ -187,7 +187,7 @@ def run_shard(ctx: Ctx) -> None:
         if msg:
             raise Violation(msg, {"schema_text": text, "pickle": pickle_b64((s, vals, strangers))})
 
-    hyp_run(ctx, program(ctx.pick(8, 40)), body, ctx.n(32, 320), shrink_cap=8)
+    hyp_run(ctx, program(ctx.pick(8, 40)), body, ctx.n(48, 320), shrink_cap=8)
 
 
 def replay(c: Dict[str, Any]) -> Optional[str]:
